@@ -715,6 +715,7 @@ func (p *Parser) consumeComment(curtoken Token, curlit string) (outtoken Token, 
 			outtoken, outlit = p.scanIgnoreWhitespace()
 			if outtoken == EOF || outtoken == ILLEGAL {
 				err = fmt.Errorf("Unmatched bracket")
+				return
 			}
 		}
 	}
